@@ -341,6 +341,9 @@ def rp66_file(rng, size='small', seven_bit=True, hostile_names=True, layout=None
                 objs.append(((org, rng.randrange(0, 3), nm), vals))
             st = rng.choice([b'PARAMETER', b'TOOL', b'EQUIPMENT', b'COMMENT', b'MESSAGE'])
             lrt = {b'PARAMETER': 5, b'TOOL': 5, b'EQUIPMENT': 5, b'COMMENT': 7, b'MESSAGE': 7}[st]
+            if rng.random() < 0.25:
+                # a private table: logical record type 128..255, a set type of the producer's own
+                st, lrt = rng.choice([b'280-FRAMESTEP-INFO', b'440-CHANNEL', b'PRIVATE-SET', b'X']), rng.randrange(128, 256)
             sname = hb(8, 'name') if rng.random() < 0.7 else None
             if sname is not None:
                 strs.append(('set-name', sname))
